@@ -275,6 +275,15 @@ impl<'a> RunGen<'a> {
         // the 2 MiB boundary is part of the contract: exercised in every tier, at
         // most once per run (bodies.len() doubles as "early in the run" here)
         let boundary = if self.thorough || bodies.len() < 2 { 1 } else { 0 };
+        // answers above 1 MiB (thorough tier: such a conversion takes ~10 s): many
+        // small captions with multi-byte characters, i.e. a large document that is
+        // non-ASCII all over
+        if self.thorough && rng.chance(1, 2500) {
+            let unit = format!("{}\n", *rng.pick(&["é  ", "文   ", "o  é  ", "ü ö  "])).repeat(1);
+            let line = unit.trim_end().repeat(40) + "\n";
+            let times = 115_000 / line.len() + rng.usize_below(40);
+            return ReqSpec { method: "POST".into(), path: "/".into(), version: "1.1".into(), headers: vec![], body: BodySpec::Repeat { unit: line, times }, framing: Framing::ContentLength, raw: None };
+        }
         let k = rng.weighted(&[15, 35, 12, 8, 4, 4, 3, 6, 5, 2, 3, boundary]);
         match k {
             0 => get(extra_headers(rng)),
